@@ -11,7 +11,9 @@ def check(ctx, rep):
         "overridden on purpose, both constructors run. R10.2 the nested body is the awaited inherited run "
         "(every exit of the override is dominated by it), the window and the deadline are created per "
         "activation of the run. R10.3 failure mapping and identity (critical mapping over path facts; the "
-        "wrapper never replaces an exception; is_done/result tables for the nestable class).")
+        "wrapper never replaces an exception; is_done/result tables for the nestable class). R10.4 the parent "
+        "aborts on the failure of a critical member - nested scheduler or plain job alike - exactly when a done "
+        "task raised and its job is critical (fold-classified abort flag).")
     rep.declined = ["'every job runs at the same times as in the flattened graph' (timing)"]
     rep.trusted = ["T8 C3 MRO"]
     nested.mro_table(ctx, rep, "R10.1")
@@ -19,5 +21,6 @@ def check(ctx, rep):
     common.window_scope(ctx, rep, "R10.2w")
     runrules.deadline(ctx, rep, "R10.2d", "R10.2d")
     nested.critical_mapping(ctx, rep, "R10.3")
+    runrules.detection_exact(ctx, rep, "R10.4")
     predicates.identity_flow(ctx, rep, "R10.3i")
     predicates.lifecycle_tables(ctx, rep, "R10.3t")
